@@ -36,6 +36,29 @@ func c10Find(l []*c10Bucket, key string, q uint) int {
 	return -1
 }
 
+// c10CheckRep: the representation invariant that carries the no-double-emission / ordered-flush argument to
+// longer histories: tsList is strictly ascending and lists exactly the open first-level buckets, and every
+// bucket the ghost model holds open is open in the aggregator. Read at quiescence (after verifSettle).
+func c10CheckRep(a *Aggregator, open []*c10Bucket) {
+	verifAssert(len(a.tsList) == len(a.aggregations), "invariant-tslist-lists-open-buckets")
+	for i, q := range a.tsList {
+		if i > 0 {
+			verifAssert(a.tsList[i-1] < q, "invariant-tslist-strictly-ascending")
+		}
+		_, ok := a.aggregations[q]
+		verifAssert(ok, "invariant-tslist-lists-open-buckets")
+	}
+	for _, b := range open {
+		agg, ok := a.aggregations[b.q]
+		if !ok {
+			verifFail("invariant-ghost-open-bucket-is-open")
+			continue
+		}
+		_, ok = agg.state[b.key]
+		verifAssert(ok, "invariant-ghost-open-bucket-is-open")
+	}
+}
+
 // c10Pick: a value from a comma separated list of concrete candidates (verifChoice), or with "sym"
 // a symbolic 16-bit value.
 func c10Pick(name, param string) uint {
@@ -72,7 +95,8 @@ var c10Names = []string{"a1", "b1", "a2", "c1"} // a1,a2 share capture group "a"
 
 // VerifC10Hist. params: fun, events (one "x" per event), names (one "x" per usable name), outfmt,
 // cache ("1"/"0"), intervals, waits ("sym" or candidate list), small ("1": small-integer values),
-// narrow ("1": 16-bit timestamps and clock), first (pin the first event; splits an obligation for parallel runs).
+// narrow ("1": 16-bit timestamps and clock), first (comma list pinning the first events; splits an obligation
+// into parts that run in parallel).
 func VerifC10Hist() {
 	fun := verifParam("fun")
 	nev := len(verifParam("events"))
@@ -84,7 +108,10 @@ func VerifC10Hist() {
 	wait := c10Pick("wait", verifParam("waits"))
 	verifAssume(interval != 0) // interval 0 divides by zero: property C14
 
-	first := verifParam("first") // "" = any; "0" = tick, "k" = point with the k-th name
+	var prefix []string // pinned first events: "0" = tick, "k" = point with the k-th name
+	if f := verifParam("first"); f != "" {
+		prefix = strings.Split(f, ",")
+	}
 	narrow := verifParam("narrow") == "1" // timestamps and clock drawn from 16 bits (cheaper queries)
 	clock0 := c10U32("clock0", narrow)
 	c10Clock = int64(clock0)
@@ -110,14 +137,17 @@ func VerifC10Hist() {
 	lastTick := c10Clock // instant of the previous tick (ticks are buffered and may be consumed late)
 
 	for ev := 0; ev < nev; ev++ {
+		if ev > 0 {
+			c10CheckRep(a, open)
+		}
 		c10Clock += int64(verifUint16("advance")) // the clock never goes back
 		now := uint(c10Clock)
 		tooOld0 := numTooOld.Count()
 		in0 := a.numIn.Count()
 
 		kind := 0
-		if ev == 0 && first != "" {
-			kind, _ = strconv.Atoi(first) // the obligation is split by its first event
+		if ev < len(prefix) {
+			kind, _ = strconv.Atoi(prefix[ev]) // the obligation is split by its first events
 			verifAssume(kind <= nnames)
 		} else {
 			kind = verifChoice("event", 1+nnames)
@@ -253,5 +283,6 @@ func VerifC10Hist() {
 		}
 		open = still
 	}
+	c10CheckRep(a, open)
 	verifCover("end")
 }
